@@ -840,6 +840,8 @@ func runCorr(a map[string]string, pool service.TransactionPool) {
 	}
 	// 4. generated scripts (one of each special kind first)
 	s.bigBlocks()
+	s.bigBlocks()
+	s.bigBlocks()
 	s.lru()
 	// boundaries of the per-block limit (deterministic shapes; quick runs half of them)
 	thorough := a["tier"] == "thorough"
